@@ -148,7 +148,7 @@ func init() {
 			c.ruleVariant("pkg/trie/node")
 			c.min("R-VARIANT/table", 7)
 			c.ruleVariantSelect()
-			c.min("R-VARIANT/select", 5)
+			c.min("R-VARIANT/select", 6)
 			c.ruleNodeEncodeOrder()
 			c.min("R-ENCORDER", 7)
 			c.ruleOwn(ownExempt)
